@@ -78,7 +78,7 @@ func runC15(r *h.Run) {
 	proto := r.Spec.P("proto", "netrpc")
 	scen := r.Spec.P("scenario", "basic")
 	ctx := fmt.Sprintf("proto=%s scenario=%s", proto, scen)
-	quiet := func() bool { return w.InjectedTotal() < 2*time.Second && w.Faults["conn.rst"] == 0 }
+	quiet := func() bool { return w.InjectedTotal() < 2*time.Second && w.FaultCount("conn.rst") == 0 }
 
 	use := func(cl *plugin.Client, name, op, arg string) (string, error) {
 		o := r.DoNoHang(fmt.Sprintf("%s.%s", name, op), 90*time.Second, ctx, func() (any, error) {
